@@ -44,13 +44,19 @@ KindIdx(k)   == CHOOSE i \in 1..Len(KindSeq) : KindSeq[i] = k
 Modes(n) == 0..(n - 1)
 
 \* ------------------------------------------------------------------ the documented mapping
-ItemModes(n, it) == IF it.form = "scalar" THEN Modes(n) ELSE SeqRange(it.modes)
-ItemPar(it, m)   == IF it.form = "scalar" THEN it.pars[1]
-                    ELSE it.pars[CHOOSE j \in 1..Len(it.modes) : it.modes[j] = m]
+(* Dict KEYS may be negative.  The documentation only says "dictionary"; the implementation has     *)
+(* always indexed its per-mode tables with the keys, so key k < 0 addresses mode n + k (Python's     *)
+(* index convention, -1 = last mode) and users rely on it.  The specification adopts that reading    *)
+(* in full: a negative key DENOTES mode n + k -- for the assignment AND for the double-constraint    *)
+(* rule (two keywords reaching the same mode, under whatever spelling, are rejected).                *)
+NormMode(n, k)   == IF k < 0 THEN n + k ELSE k
+ItemModes(n, it) == IF it.form = "scalar" THEN Modes(n) ELSE {NormMode(n, it.modes[j]) : j \in 1..Len(it.modes)}
+ItemPar(n, it, m) == IF it.form = "scalar" THEN it.pars[1]
+                     ELSE it.pars[CHOOSE j \in 1..Len(it.modes) : NormMode(n, it.modes[j]) = m]
 
 \* every (mode, kind, parameter) the user asked for
 Requests(n, items) ==
-    UNION {{[mode |-> m, kind |-> items[j].kind, par |-> ItemPar(items[j], m)] : m \in ItemModes(n, items[j])}
+    UNION {{[mode |-> m, kind |-> items[j].kind, par |-> ItemPar(n, items[j], m)] : m \in ItemModes(n, items[j])}
            : j \in 1..Len(items)}
 ReqAt(n, items, m)     == {r \in Requests(n, items) : r.mode = m}
 Requested(n, items)    == {r.mode : r \in Requests(n, items)}
@@ -73,7 +79,7 @@ Register(n, items, st) ==
     ELSE LET it  == Head(items)
              occ == \E m \in ItemModes(n, it) : st.tab[m] # NoneKP
              tab == [m \in Modes(n) |-> IF m \in ItemModes(n, it)
-                                        THEN [kind |-> it.kind, par |-> ItemPar(it, m)] ELSE st.tab[m]]
+                                        THEN [kind |-> it.kind, par |-> ItemPar(n, it, m)] ELSE st.tab[m]]
          IN  IF occ THEN [rej |-> TRUE, tab |-> st.tab]
              ELSE Register(n, Tail(items), [rej |-> FALSE, tab |-> tab])
 Sequential(n, items) == Register(n, items, [rej |-> FALSE, tab |-> [m \in Modes(n) |-> NoneKP]])
@@ -82,10 +88,10 @@ Reorder(items, p) == [j \in 1..Len(items) |-> items[p[j]]]
 \* the same dict written with its (mode, parameter) pairs in another order (p: a permutation)
 Rekey(it, p) == [kind |-> it.kind, form |-> it.form, modes |-> [j \in 1..Len(it.modes) |-> it.modes[p[j]]],
                  pars |-> [j \in 1..Len(it.pars) |-> it.pars[p[j]]]]
-AsDict(n, it) == IF it.form = "dict" THEN it
-                 ELSE LET ms == SortedSeq(ItemModes(n, it))
+\* canonical spelling: a dict over the denoted modes, ascending, non-negative keys
+AsDict(n, it) == LET ms == SortedSeq(ItemModes(n, it))
                       IN  [kind |-> it.kind, form |-> "dict", modes |-> ms,
-                           pars |-> [j \in 1..Len(ms) |-> ItemPar(it, ms[j])]]
+                           pars |-> [j \in 1..Len(ms) |-> ItemPar(n, it, ms[j])]]
 
 \* ---- theorems about the mapping (TLC, every enumerated specification)
 MapOK(n, items) ==
@@ -128,20 +134,28 @@ KeyOrders(S, which) ==
     IF which = "all" THEN {[j \in 1..Len(asc) |-> asc[p[j]]] : p \in Permutations(1..Len(asc))}
     ELSE IF which = "ends" THEN {asc, Reversed(asc)}
     ELSE {asc}
-WithPars(k, f, ms) == [kind |-> k, form |-> f, modes |-> ms, pars |-> [j \in 1..Len(ms) |-> DomPar(k, ms[j])]]
+WithPars(n, k, f, ms) == [kind |-> k, form |-> f, modes |-> ms, pars |-> [j \in 1..Len(ms) |-> DomPar(k, NormMode(n, ms[j]))]]
+\* spellings of the keys: the last mode written -1; every key written negative
+NegLast(n, ms) == [j \in 1..Len(ms) |-> IF ms[j] = n - 1 THEN -1 ELSE ms[j]]
+AllNeg(n, ms)  == [j \in 1..Len(ms) |-> ms[j] - n]
+Spellings(n, ms, which) ==
+    IF which = "all" THEN {ms, NegLast(n, ms), AllNeg(n, ms)}
+    ELSE IF which = "asc" \/ ms = SortedSeq(SeqRange(ms)) THEN {ms, NegLast(n, ms)}
+    ELSE {ms}
 \* per-mode parameters are DISTINCT (DomPar depends on the mode) for counts, radii and penalties
 ItemsOf(n, k, which) ==
          {[kind |-> k, form |-> "scalar", modes |-> <<>>, pars |-> <<DomPar(k, 1)>>]}
-    \cup {WithPars(k, "list", SortedSeq(S)) : S \in SUBSET Modes(n)}
-    \cup UNION {{WithPars(k, "dict", ms) : ms \in KeyOrders(S, which)} : S \in SUBSET Modes(n)}
-IsEndsOrder(ms) == ms = SortedSeq(SeqRange(ms)) \/ ms = Reversed(SortedSeq(SeqRange(ms)))
+    \cup {WithPars(n, k, "list", SortedSeq(S)) : S \in SUBSET Modes(n)}
+    \cup UNION {UNION {{WithPars(n, k, "dict", sp) : sp \in Spellings(n, ms, which)} : ms \in KeyOrders(S, which)} : S \in SUBSET Modes(n)}
+\* the first keyword of a pair: one of the "ends" spellings
+PairFirstOK(n, it) == it \in ItemsOf(n, it.kind, "ends")
 
 \* structural validity (what the trace specification checks on an event; no big set is built)
 StrictlyIncreasing(s) == \A j \in 1..(Len(s) - 1) : s[j] < s[j + 1]
 ValidItem(n, it) ==
     /\ it.kind \in AllKinds /\ it.form \in Forms
-    /\ \A j \in 1..Len(it.modes) : it.modes[j] \in Modes(n)
-    /\ Cardinality(SeqRange(it.modes)) = Len(it.modes)                 \* distinct
+    /\ \A j \in 1..Len(it.modes) : it.modes[j] \in (IF it.form = "dict" THEN (-n)..(n - 1) ELSE Modes(n))
+    /\ Cardinality({NormMode(n, it.modes[j]) : j \in 1..Len(it.modes)}) = Len(it.modes)   \* distinct MODES (not just keys)
     /\ it.form # "dict" => StrictlyIncreasing(it.modes)                \* a dict may list its keys in any order
     /\ IF it.form = "scalar" THEN it.modes = <<>> /\ Len(it.pars) = 1 ELSE Len(it.pars) = Len(it.modes)
     /\ \A j \in 1..Len(it.pars) : it.pars[j] \in 1..9 /\ (it.kind \in BoolKinds => it.pars[j] = 1)
@@ -154,7 +168,13 @@ ValidSpec(n, items) ==
 RunShapes(n) == IF n = 3 THEN {<<3, 4, 2>>, <<4, 3, 3>>, <<3, 1, 4>>}              \* incl. a size-1 mode
                 ELSE IF n = 4 THEN {<<3, 2, 3, 2>>, <<2, 3, 2, 4>>, <<2, 3, 1, 3>>} ELSE {}
 RunRanks  == {1, 2, 3}
-RunInits  == {"svd", "random", "user"}     \* "user": an entrywise non-negative CP tensor supplied by the caller
+RunInits  == {"svd", "random", "user", "exact"}
+\* "user":  an entrywise non-negative CP tensor supplied by the caller
+\* "exact": the data ARE a CP tensor and the caller's start reproduces them (to rounding, or to 1e-4
+\*          when tol_outer is loose) through an equivalent but infeasible parametrisation: a component
+\*          sign-flipped in two modes, scale moved between modes, a negative weight
+BuiltinInit(r) == r.init \in {"svd", "random"}
+RunTols   == {"default", "loose"}          \* tol_outer left at 1e-8 / set to 1e-2
 RunOuter  == {0, 1, 2, 5}   \* 0: the initial factors are returned (built-in inits go through the prox first)
 RunInner  == {1, 10}         \* never 0: admm(n_iter_max=0) raises UnboundLocalError before returning
 RunData   == {"signed", "sparse", "allneg"}
@@ -184,16 +204,17 @@ UnderflowRegime(r) == r.dtype = "float32" /\ r.scale < 0
 \* is judged by ITS OWN specification (nothing may survive from an earlier call)
 SeqShifts == {0, 2, 4}
 ValidRun(n, r) == /\ r.shape \in RunShapes(n) /\ r.rank \in RunRanks /\ r.init \in RunInits
-                  /\ ValidFixed(n, r.fixed) /\ r.via \in RunVia /\ ValidValues(r)
+                  /\ ValidFixed(n, r.fixed) /\ r.via \in RunVia /\ ValidValues(r) /\ r.tol \in RunTols
                   /\ r.outer \in RunOuter /\ r.inner \in RunInner /\ r.data \in RunData
-                  /\ (r.outer = 0 => r.init # "user")     \* a user start returned untouched: nothing to check
+                  /\ (r.outer = 0 => BuiltinInit(r))      \* a caller's start returned untouched: nothing to check
 (* Which modes carry the obligation.  initialize_constrained_parafac documents that the built-in    *)
 (* initialisations are passed through the proximal operator "so that they satisfy the imposed       *)
 (* constraints (does not apply to cptensor initialization)"; fixed_modes keeps "the initial value". *)
 (* Hence: a free mode is always obliged (ADMM returns the prox output; with a zero outer budget it   *)
 (* is the projected built-in start); a FIXED mode is obliged exactly when the start is built-in; a  *)
-(* fixed mode of a user start is returned as supplied (C14) and carries no obligation.              *)
-BuiltinInit(r) == r.init \in {"svd", "random"}
+(* fixed mode of a caller's start is returned as supplied (C14) and carries no obligation.  With an *)
+(* outer budget >= 1 every FREE requested mode is obliged WHATEVER the start -- also one that fits  *)
+(* the data exactly: "fits" is not "satisfies the constraints".                                     *)
 ObligedModes(n, items, r) ==
     {m \in Requested(n, items) : Assign(n, items)[m].kind \in HardKinds /\ (m \notin SeqRange(r.fixed) \/ BuiltinInit(r))}
 \* operator events: proximal_operator(v, <spec>, n_const = n, order = mode) on a rows x cols matrix
@@ -343,11 +364,11 @@ Init == \/ cfg \in {[op |-> "root", n |-> n, first |-> <<it>>] : <<n, it>> \in U
         \/ cfg \in {[op |-> "root", n |-> n, first |-> <<>>] : n \in Orders}
         \/ cfg \in {[op |-> "colroot", x |-> x] : x \in Columns}
         \/ cfg \in {[op |-> "col4", x |-> x] : x \in [1..4 -> ColVals]}
-        \/ cfg \in {[op |-> "rundomain", n |-> n, shapes |-> RunShapes(n), ranks |-> RunRanks, inits |-> RunInits, fixed |-> RunFixed(n), via |-> RunVia, scales |-> RunScales, dtypes |-> RunDtypes, shifts |-> SeqShifts,
+        \/ cfg \in {[op |-> "rundomain", n |-> n, shapes |-> RunShapes(n), ranks |-> RunRanks, inits |-> RunInits, fixed |-> RunFixed(n), via |-> RunVia, scales |-> RunScales, dtypes |-> RunDtypes, shifts |-> SeqShifts, tols |-> RunTols,
                      outer |-> RunOuter, inner |-> RunInner, data |-> RunData] : n \in Orders}
 Next == \/ /\ cfg.op = "root"
            /\ \/ cfg' = SpecState(cfg.n, cfg.first)
-              \/ /\ cfg.first # <<>> /\ cfg.first[1].kind \in PairKinds(cfg.n) /\ IsEndsOrder(cfg.first[1].modes)
+              \/ /\ cfg.first # <<>> /\ cfg.first[1].kind \in PairKinds(cfg.n) /\ PairFirstOK(cfg.n, cfg.first[1])
                  /\ cfg' \in {SpecState(cfg.n, cfg.first \o <<it>>) :
                                 it \in UNION {ItemsOf(cfg.n, k, SecondKeyOrders) : k \in {k \in PairKinds(cfg.n) : KindIdx(k) > KindIdx(cfg.first[1].kind)}}}
         \/ /\ cfg.op = "colroot"
